@@ -1,4 +1,5 @@
 import SrProofs.Ceramic
+import SrProofs.Volume
 
 /-!
 # C05 — ceramic reliability obeys the Weibull laws and is frame-indifferent
@@ -271,6 +272,76 @@ theorem aggregation (n : ℕ) (hn : 0 < n) (elems : List (List ℝ)) (panels : L
   ⟨tubeLog_eq hn elems, fun p _ => rel_panelLog p, rfl, overallLog_flatten panels,
     rel_overallLog panels⟩
 
+/-! ### element volumes (`Tube.element_volumes`, model `SrModel.Volume` at `ℝ`, π = `Real.pi`)
+
+The `V` of `volume_linear` is an entry of `Tube.element_volumes()`.  `vols1d/2d/3d` are the flattened
+arrays `_volume1d/_volume2d/_volume3d` return, `radius`, `theta`, `height` are numpy's
+`linspace`/`diff(linspace)` entries (last `linspace` entry overwritten by `stop`, as numpy does). -/
+open SrModel.Volume in
+/-- **volume1d_total.** The 1D element volumes `π (r_{i+1}² − r_i²) h` telescope to the volume of the
+tube wall, `π (ro² − (ro−t)²) h`, for every `nr ≥ 2` (no sign hypotheses). -/
+theorem volume1d_total (ro t h : ℝ) {nr : ℕ} (hn : 2 ≤ nr) :
+    (vols1d Real.pi ro t h nr).sum = Real.pi * (ro ^ 2 - (ro - t) ^ 2) * h :=
+  vols1d_sum ro t h hn
+
+open SrModel.Volume in
+/-- **volume2d_closed_form.** For `t ≥ 0`, `nr ≥ 2`, `nt ≥ 2` (so that `edge ≥ 0` and `cos(θ/2) ≥ 0`, which
+makes `sqrt(edge² − ((b−a)/2)²) = edge·cos(θ/2)`): `θ_j = 2π/nt`, `r_i = ro − t + t·i/(nr−1)`, and the element
+`(i,j)` of `_volume2d` is `½ (r_{i+1}² − r_i²) sin(2π/nt) h` — the area of the polygon sector, not of the
+circular sector `½ (r_{i+1}² − r_i²) (2π/nt)`. -/
+theorem volume2d_closed_form {ro t : ℝ} (ht : 0 ≤ t) (h : ℝ) {nr nt i j : ℕ} (hn : 2 ≤ nr) (hnt : 2 ≤ nt)
+    (hi : i + 1 < nr) (hj : j < nt) :
+    theta Real.pi nt j = 2 * Real.pi / nt ∧
+    radius ro t nr i = ro - t + t * i / ((nr : ℝ) - 1) ∧
+    radius ro t nr (i + 1) = ro - t + t * (i + 1 : ℕ) / ((nr : ℝ) - 1) ∧
+    vol2d Real.pi ro t h nr nt i j
+      = 1 / 2 * (radius ro t nr (i + 1) ^ 2 - radius ro t nr i ^ 2) * Real.sin (2 * Real.pi / nt) * h :=
+  ⟨theta_eq hj, radius_eq ro t hn (by omega), radius_eq ro t hn hi,
+    by unfold vol2d; rw [base2d_closed ht hn hnt hi hj]⟩
+
+open SrModel.Volume in
+/-- **volume2d_total.** `Σ_{i,j} _volume2d = (nt/2) sin(2π/nt) (ro² − (ro−t)²) h`: the volume of the regular
+`nt`-gon annulus (tends to `π (ro² − (ro−t)²) h` as `nt → ∞`, and is smaller for every finite `nt`). -/
+theorem volume2d_total {ro t : ℝ} (ht : 0 ≤ t) (h : ℝ) {nr nt : ℕ} (hn : 2 ≤ nr) (hnt : 2 ≤ nt) :
+    (vols2d Real.pi ro t h nr nt).sum
+      = (nt : ℝ) / 2 * Real.sin (2 * Real.pi / nt) * (ro ^ 2 - (ro - t) ^ 2) * h :=
+  vols2d_sum ht h hn hnt
+
+open SrModel.Volume in
+/-- **volume3d_total.** Every axial slice is `h/(nz−1)` high, the element `(i,j,k)` of `_volume3d` is
+`heights[k]·base[i,j]`, and the 3D total equals the 2D total (the heights telescope to `h`). -/
+theorem volume3d_total {ro t : ℝ} (ht : 0 ≤ t) (h : ℝ) {nr nt nz : ℕ} (hn : 2 ≤ nr) (hnt : 2 ≤ nt)
+    (hnz : 2 ≤ nz) :
+    (∀ k, k + 1 < nz → height h nz k = h / ((nz : ℝ) - 1)) ∧
+    (vols3d Real.pi ro t h nr nt nz).sum = (vols2d Real.pi ro t h nr nt).sum ∧
+    (vols3d Real.pi ro t h nr nt nz).sum
+      = (nt : ℝ) / 2 * Real.sin (2 * Real.pi / nt) * (ro ^ 2 - (ro - t) ^ 2) * h :=
+  ⟨fun _ hk => height_eq h hk, vols3d_sum ro t h nr nt hnz,
+    (vols3d_sum ro t h nr nt hnz).trans (vols2d_sum ht h hn hnt)⟩
+
+open SrModel.Volume in
+/-- **volume_pos.** For `0 < t < ro`, `0 < h`, `nr ≥ 2` (and `nt ≥ 3` in 2D/3D) every element volume is
+positive; the arrays have `nr−1`, `(nr−1)·nt`, `(nr−1)·nt·(nz−1)` entries. -/
+theorem volume_pos {ro t h : ℝ} (ht : 0 < t) (htr : t < ro) (hh : 0 < h) {nr nt : ℕ} (nz : ℕ) (hn : 2 ≤ nr)
+    (hnt : 3 ≤ nt) :
+    (∀ v ∈ vols1d Real.pi ro t h nr, 0 < v) ∧
+    (∀ v ∈ vols2d Real.pi ro t h nr nt, 0 < v) ∧
+    (∀ v ∈ vols3d Real.pi ro t h nr nt nz, 0 < v) ∧
+    (vols1d Real.pi ro t h nr).length = nr - 1 ∧
+    (vols2d Real.pi ro t h nr nt).length = (nr - 1) * nt ∧
+    (vols3d Real.pi ro t h nr nt nz).length = (nr - 1) * nt * (nz - 1) :=
+  ⟨vols1d_pos ht htr hh hn, vols2d_pos ht htr hh hn hnt, vols3d_pos ht htr hh hn hnt,
+    vols1d_length .., vols2d_length .., vols3d_length ..⟩
+
+open SrModel.Volume in
+/-- **volume_linear_in_height.** Every element volume is linear in the tube height:
+`volumes(c·h) = c · volumes(h)` entry by entry, 1D, 2D and 3D (no hypotheses). -/
+theorem volume_linear_in_height (c ro t h : ℝ) (nr nt nz : ℕ) :
+    vols1d Real.pi ro t (c * h) nr = (vols1d Real.pi ro t h nr).map (c * ·) ∧
+    vols2d Real.pi ro t (c * h) nr nt = (vols2d Real.pi ro t h nr nt).map (c * ·) ∧
+    vols3d Real.pi ro t (c * h) nr nt nz = (vols3d Real.pi ro t h nr nt nz).map (c * ·) :=
+  ⟨vols1d_smul c ro t h nr, vols2d_smul c ro t h nr nt, vols3d_smul c ro t h nr nt nz⟩
+
 /-! ### non-vacuity -/
 
 /-- the hypotheses `OK` are satisfiable (a two-step time axis, one orientation node) -/
@@ -310,5 +381,24 @@ example : (⟨-3, -1, 0⟩ : P3 ℝ).nonpos := ⟨by norm_num, by norm_num, le_r
 example : rotate (Matrix.of ![![0, -1, 0], ![1, 0, 0], ![0, 0, 1]]) ⟨1, 2, 3, 0, 0, 0⟩
     = (⟨2, 1, 3, 0, 0, 0⟩ : Sym3 ℝ) := by
   simp [rotate, Sym3.ofMatrix, Sym3.toMatrix, Matrix.mul_apply, Fin.sum_univ_three]
+
+open SrModel.Volume in
+/-- a concrete tube (`ro = 2`, `t = 1`, `h = 3`, `nr = 3`, `nt = 4`, `nz = 3`) satisfies the hypotheses of the
+volume theorems; its 1D total is `9π`, its 2D and 3D totals are `18` (`sin(2π/4) = 1`), with 2, 8 and 16
+positive entries -/
+example :
+    (vols1d Real.pi 2 1 3 3).sum = 9 * Real.pi ∧ (vols2d Real.pi 2 1 3 3 4).sum = 18 ∧
+    (vols3d Real.pi 2 1 3 3 4 3).sum = 18 ∧ (vols3d Real.pi 2 1 3 3 4 3).length = 16 ∧
+    (∀ v ∈ vols3d Real.pi 2 1 3 3 4 3, (0 : ℝ) < v) := by
+  have hs : Real.sin (2 * Real.pi / ((4 : ℕ) : ℝ)) = 1 := by
+    rw [show 2 * Real.pi / ((4 : ℕ) : ℝ) = Real.pi / 2 by push_cast; ring, Real.sin_pi_div_two]
+  have h3 := volume3d_total (ro := 2) (t := 1) (by norm_num) 3 (nr := 3) (nt := 4) (nz := 3)
+    (by norm_num) (by norm_num) (by norm_num)
+  have hp := volume_pos (ro := 2) (t := 1) (h := 3) (by norm_num) (by norm_num) (by norm_num)
+    (nr := 3) (nt := 4) 3 (by norm_num) (by norm_num)
+  refine ⟨?_, ?_, ?_, hp.2.2.2.2.2, hp.2.2.1⟩
+  · rw [volume1d_total 2 1 3 (by norm_num)]; ring
+  · rw [volume2d_total (by norm_num) 3 (by norm_num) (by norm_num), hs]; norm_num
+  · rw [h3.2.2, hs]; norm_num
 
 end SrProps.C05
